@@ -119,6 +119,20 @@ Theorem c13_cleanup_spares_roots :
 Proof. exact cleanup_spares_roots_main. Qed.
 Print Assumptions c13_cleanup_spares_roots.
 
+(* Emptied directories are removed only if really empty, whatever else the tree holds.
+   [fs_children fs d] is the FULL listing of d: every entry whose parent is d, i.e. regular files under
+   any name (hidden ones like .gitkeep included), symbolic links (non-directories, as DirEntry.IsDir
+   reports them) and sub-directories.  Every entry of a directory that DirCleanUpPaths lists is the
+   file just deleted or a directory listed with it (for which the same holds): no bystander lives in
+   or below a listed directory, so removing the listed directories touches nothing else. *)
+Theorem c13_cleanup_only_empty :
+  forall (C : Type) (fs : fsys C) target roots ds,
+  dir_cleanup_paths fs target roots = CwOk ds ->
+  forall d e, In d ds -> In e (fs_children fs d) ->
+  e = target \/ (In e ds /\ fs_is_dir fs e = true).
+Proof. exact cleanup_only_empty. Qed.
+Print Assumptions c13_cleanup_only_empty.
+
 Theorem c13_dry_run_noop :
   forall (C : Type) (fl : flags) cwd gv roots (fs : fsys C) lr dl ml,
   fl_dry_run fl = true -> snd (finish_command fl cwd gv roots fs lr dl ml) = fs.
@@ -265,6 +279,20 @@ Proof.
   split; [vm_compute; reflexivity|].
   split; vm_compute; reflexivity.
 Qed.
+
+(* clean-up next to bystanders: after /R/p/a/x.rego is gone, /R/p/a is listed when it holds nothing, and then
+   /R/p too; a hidden file in /R/p/a keeps both; a hidden file in /R/p keeps /R/p only; so do a symbolic link
+   (a non-directory entry) and an empty sub-directory *)
+Definition cu_fs (extra_files extra_dirs : list str) : fsys str :=
+  {| fs_files := (lit "/R/keep.txt", lit "K") :: map (fun f => (f, lit "x")) extra_files;
+     fs_dirs := [lit "/"; lit "/R"; lit "/R/p"; lit "/R/p/a"] ++ extra_dirs |}.
+Example c13_cleanup_only_empty_nonvacuous :
+  dir_cleanup_paths (cu_fs [] []) (lit "/R/p/a/x.rego") [lit "/R"] = CwOk [lit "/R/p/a"; lit "/R/p"]
+  /\ dir_cleanup_paths (cu_fs [lit "/R/p/a/.gitkeep"] []) (lit "/R/p/a/x.rego") [lit "/R"] = CwOk []
+  /\ dir_cleanup_paths (cu_fs [lit "/R/p/.DS_Store"] []) (lit "/R/p/a/x.rego") [lit "/R"] = CwOk [lit "/R/p/a"]
+  /\ dir_cleanup_paths (cu_fs [lit "/R/p/latest"] []) (lit "/R/p/a/x.rego") [lit "/R"] = CwOk [lit "/R/p/a"]
+  /\ dir_cleanup_paths (cu_fs [] [lit "/R/p/a/sub"]) (lit "/R/p/a/x.rego") [lit "/R"] = CwOk [].
+Proof. repeat split; vm_compute; reflexivity. Qed.
 
 (* the candidate loop: x.rego, x_1.rego taken -> x_2.rego *)
 Example c13_candidate_fresh_nonvacuous :
